@@ -17,6 +17,7 @@ from ..simkit.backends import BackendFault, classes
 from ..simkit.core import call, judge, clear_library_caches
 from ..simkit.simfs import Seams, SimFS
 from ..simkit.simrng import POLICIES, SimRNG
+from ..simkit.simalloc import SimAlloc
 from ..simkit.store import BUFFER_SIZES
 
 PID = "C14"
@@ -67,7 +68,7 @@ class World:
     PROBES_EXPECTED = ["rejected-run", "rejected-batch-length", "rejected-batch-entry", "rejected-dist", "batch-ok", "run-ok",
                        "dist-exact", "dist-sampled", "wf-ok", "peer-fault-mid-batch", "over-delivery", "tracker-record-ok",
                        "tracker-bitstrings", "tracker-disk-fault", "tracker-after-disk-fault", "multi-segment", "empty-circuit",
-                       "idle-qubits", "symbolic-circuit-refused", "call-after-reject", "numpy-bit-backend", "tuple-arguments", "ephemeral-circuit-objects"]
+                       "idle-qubits", "symbolic-circuit-refused", "call-after-reject", "numpy-bit-backend", "tuple-arguments", "ephemeral-circuit-objects", "alloc-fault"]
 
     # ------------------------------------------------------------ generation
     def gen_plan(self, seed, tier):
@@ -141,7 +142,7 @@ class World:
                 a.update(c=r.randrange(16), op=gen.rand_pauli(r, n, r.randint(1, 3), ops="Z", constant=0.2, dup=0))
             s = {"op": op, "args": a, "client": r.randrange(cfg["clients"]), "rs": r.getrandbits(32)}
             if r.random() < pf:
-                s["fault"] = r.choice([{"kind": "peer", "at": r.randrange(0, 4)},
+                s["fault"] = r.choice([{"kind": "peer", "at": r.randrange(0, 4)}, {"kind": "alloc", "at": r.randrange(0, 30)},
                                        {"kind": r.choice(TRACK_FAULTS), "at": r.randrange(0, 6), "frac": r.random()}])
             steps.append(s)
         return {"format": 1, "property": PID, "world": "runners", "seed": seed, "config": cfg, "steps": steps}
@@ -207,9 +208,10 @@ class World:
         if cfg.get("ephemeral_circuits"):
             ctx.probe("ephemeral-circuit-objects")
         return {"fs": fs, "seams": seams, "rng": rng, "runners": runners, "circs": circs, "ok_calls": 0, "after_reject": False,
-                "ephemeral": bool(cfg.get("ephemeral_circuits"))}
+                "ephemeral": bool(cfg.get("ephemeral_circuits")), "alloc": SimAlloc().install()}
 
     def cleanup(self, st):
+        st["alloc"].restore()
         st["seams"].restore()
         st["rng"].restore()
 
@@ -270,8 +272,11 @@ class World:
             B["obj"].arm(step["rs"], f["at"] if f and f["kind"] == "peer" else None)
         elif k == "split":
             B["obj"].arm(f["at"] if f and f["kind"] == "peer" else None)
-        disk = f if f and f["kind"] != "peer" else None
+        disk = f if f and f["kind"] not in ("peer", "alloc") else None
         st["fs"].begin_call(disk if R["spec"]["kind"] == "tracker" else None)
+        # a failing allocation inside the library (the bundled simulator lifting a gate, a Wavefunction being built)
+        # is the real simulators' counterpart of a failing stub peer
+        st["alloc"].begin_call(f if f and f["kind"] == "alloc" else None)
         st["rng"].begin_step(step["rs"])
 
     def _disarm(self, ctx, st, R):
@@ -281,6 +286,10 @@ class World:
         fired = st["fs"].end_call()
         for f in fired:
             ctx.fault(f[0])
+        st["alloc_fired"] = bool(st["alloc"].end_call())
+        if st["alloc_fired"]:
+            ctx.fault("alloc-fault")
+            ctx.probe("alloc-fault")
         return fired
 
     def _check_measurement(self, ctx, ent, meas, n_req, what, extra_ok):
@@ -372,6 +381,9 @@ class World:
 
     def _finish_call(self, ctx, st, R, step, ok, res, fired, what):
         """Common handling of peer / disk faults. Returns 'fault' if the call legitimately failed."""
+        alloc = st.pop("alloc_fired", False)
+        if not ok and alloc:
+            return "peer"   # same narrow relaxation: what ran before the failure may or may not have been counted
         if not ok and isinstance(res, BackendFault):
             ctx.fault("peer-fault")
             return "peer"
@@ -619,6 +631,11 @@ class World:
         ctx.called("get_wavefunction:" + R["spec"]["kind"])
         dj, dc = self._segments(R, ent["c"])
         what = f"wf[{R['spec']['kind']}]"
+        alloc = st.pop("alloc_fired", False)
+        if not ok and alloc:
+            self._expect_counters(ctx, R, (R["jobs"], R["circs"]), (R["jobs"] + dj, R["circs"] + dc), what + ":alloc-fault")
+            ctx.log("wf", "alloc-fault")
+            return
         if not ok and isinstance(res, BackendFault):
             ctx.fault("peer-fault")
             self._expect_counters(ctx, R, (R["jobs"], R["circs"]), (R["jobs"] + dj, R["circs"] + dc), what + ":peer-fault")
